@@ -280,7 +280,11 @@ def run(R):
         # interpreter's hash seed: both are cells of the table
         table = (1, 3, 6, 1, 4, 1, 4242, 8)
         entry = table + (1,)
+        import zlib
+
         pairs = gen.colliding_oid_pairs(entry, bits=32)
+        # the same for the stock 32-bit checksums somebody might use as a fingerprint
+        pairs += gen.colliding_oid_pairs_fn(entry, zlib.crc32) + gen.colliding_oid_pairs_fn(entry, zlib.adler32, limit=20000)
         R.notes["hash_collision_pairs_found"] = len(pairs)
         if pairs:
             cells = {}
